@@ -865,6 +865,8 @@ func runLookupCase(ctx *Ctx, prop string, lc *LCase, caseIdx int) {
 	resultsLoaded := make([]perOpt, 16)
 	var resultGolden perOpt
 	goldenAt := -1
+	resultsMigrated := make([]perOpt, 16)
+	nMigrated := 0
 	opts := allOptSets()
 	sampled := false
 	var prevEnv *lookupEnv
@@ -974,11 +976,20 @@ func runLookupCase(ctx *Ctx, prop string, lc *LCase, caseIdx int) {
 		// for the three option sets that version could write, three-section for
 		// the default one. The builder is trusted here only as far as C06 does:
 		// the fresh instance is checked by the same oracle in this very case.
-		if !lc.Exh && o.D && lc.Vals.Kind != "none" && lc.Vals.FixedSize() && (caseIdx+oi)%2 == 0 {
+		if !lc.Exh && o.D && lc.Vals.Kind != "none" && lc.Vals.FixedSize() && ((caseIdx+oi)%2 == 0 || prop == "C13") {
 			if (!o.L && !o.C) || (o.C && !o.I && !o.L) {
 				if ls, err := legacyStream0510(stream, []string{"0.5.10", "0.5.11"}[caseIdx%2]); err == nil {
 					if lg, err, pv, _ := loadTrie(enc, ls); err == nil && pv == nil {
 						insts = append(insts, Inst{"legacy-0.5.10-loaded", lg})
+						// migration: what the instance loaded from old data writes
+						// is loaded again (by the next release, say)
+						try(func() {
+							if mb, merr := lg.Marshal(); merr == nil {
+								if rg, err, pv, _ := loadTrie(enc, mb); err == nil && pv == nil {
+									insts = append(insts, Inst{"legacy-migrated", rg})
+								}
+							}
+						})
 					}
 				}
 			}
@@ -987,6 +998,28 @@ func runLookupCase(ctx *Ctx, prop string, lc *LCase, caseIdx int) {
 					if lg, err, pv, _ := loadTrie(enc, ls); err == nil && pv == nil {
 						insts = append(insts, Inst{"legacy-3sec-loaded", lg})
 					}
+				}
+			}
+		}
+		// C10 says "on any trie": also one whose in-place reload has just been
+		// refused (foreign version, or cut inside the header). Whether it now
+		// answers as an empty trie is C07's business; here every lookup must
+		// still return, consistently, with values that were once supplied.
+		if prop == "C10" && !lc.Exh && (caseIdx+oi)%4 == 3 {
+			if rj, err, pv, _ := loadTrie(enc, stream); err == nil && pv == nil {
+				if len(lc.Keys) > 0 {
+					rj.Get(lc.Keys[len(lc.Keys)/2])
+				}
+				var rerr error
+				try(func() {
+					if (caseIdx+oi)%8 == 3 {
+						rerr = rj.Unmarshal(withVersion(stream, "9.9.9"))
+					} else {
+						rerr = rj.Unmarshal(stream[:min(len(stream), 7+caseIdx%20)])
+					}
+				})
+				if rerr != nil {
+					insts = append(insts, Inst{"after-refused-reload", rj})
 				}
 			}
 		}
@@ -1017,7 +1050,7 @@ func runLookupCase(ctx *Ctx, prop string, lc *LCase, caseIdx int) {
 			case "C10":
 				env.oracleC10(qs, false, true)
 			case "C13":
-				res := env.oracleC10(qs, ii <= 1 || in.Name == "golden-loaded", false)
+				res := env.oracleC10(qs, ii <= 1 || in.Name == "golden-loaded" || in.Name == "legacy-migrated", false)
 				if ii == 0 {
 					results[oi] = perOpt{res, res != nil}
 				} else if ii == 1 {
@@ -1025,6 +1058,9 @@ func runLookupCase(ctx *Ctx, prop string, lc *LCase, caseIdx int) {
 				} else if in.Name == "golden-loaded" {
 					resultGolden = perOpt{res, res != nil}
 					goldenAt = oi
+				} else if in.Name == "legacy-migrated" {
+					resultsMigrated[oi] = perOpt{res, res != nil}
+					nMigrated++
 				}
 			case "C14":
 				env.oracleC14(qs)
@@ -1199,6 +1235,18 @@ func runLookupCase(ctx *Ctx, prop string, lc *LCase, caseIdx int) {
 		oracleC13(ctx, lc, qs, models, opts, "loaded", func(i int) ([]qres, bool) { return resultsLoaded[i].res, resultsLoaded[i].ok })
 		// ... and a stream persisted by the pinned release takes the place of its
 		// option set among the freshly built ones
+		// ... and so do the indexes that were written by 0.5.10/0.5.11, loaded,
+		// written again by this code and loaded again (nopref, innpref and allpref
+		// of the same entries, side by side)
+		if nMigrated >= 2 {
+			oracleC13(ctx, lc, qs, models, opts, "legacy-migrated", func(i int) ([]qres, bool) {
+				if resultsMigrated[i].ok {
+					return resultsMigrated[i].res, true
+				}
+				return results[i].res, results[i].ok
+			})
+			ctx.Count("relation_with_migrated_legacy_streams", 1)
+		}
 		if goldenAt >= 0 {
 			oracleC13(ctx, lc, qs, models, opts, "golden-loaded", func(i int) ([]qres, bool) {
 				if i == goldenAt {
